@@ -116,6 +116,21 @@ def optional_behaviour(ctx, spec, schema, r, v, w0, info):
                 ctx.violation("unmentioned_key_accepts_anything", {**info, "key": enc(key)})
 
 
+def contains_window_with_partial_dict(spec):
+    """Is there a contains-list [..., x, ...] whose window holds (possibly nested) a declared dict with a
+    required key?  (substitution tries windows with its *partial-dict* validation, see finding F21)"""
+    from ..spec import walk
+
+    def has_required_dict(n):
+        return any(m["k"] == "dict" and m.get("keys") and any(not o for _, _, o in m["keys"]) for _, m in walk(n))
+    for _, n in walk(spec):
+        if n["k"] == "list":
+            form, els = list_form(n)
+            if form == "contains" and any(has_required_dict(e) for e in els):
+                return True
+    return False
+
+
 def run_case(ctx, rng, case):
     from d42 import substitute
     from d42.substitution.errors import SubstitutionError
@@ -159,7 +174,10 @@ def run_case(ctx, rng, case):
     if conforming is True:
         ctx.count("a_conforming_checked")
         if errs:
-            ctx.violation("result_rejects_the_substituted_value", {**info, "errors": [repr(e)[:200] for e in errs[:3]]})
+            ctx.violation("result_rejects_the_substituted_value", {
+                **info, "errors": [repr(e)[:200] for e in errs[:3]],
+                "error_kinds": sorted({type(e).__name__ for e in errs}),
+                "contains_window_with_partial_dict": contains_window_with_partial_dict(spec)})
     # (d) structural
     try:
         rspec = dec.inherit_examples(dec.decode(r), spec)
